@@ -103,7 +103,7 @@ def showObs (nt : Nat) : Obs → String
   | .phase p => s!"phase {p}"
   | .stats st =>
     let a := sortStrings (st.active.map fun e => s!"{e.1}:{e.2.1}:{e.2.2}")
-    s!"stats a={if a.isEmpty then "-" else ",".intercalate a} rx={st.receivers}"
+    s!"stats a={if a.isEmpty then "-" else ",".intercalate a} rx={st.receivers}{if st.parkedCancels = 0 then "" else s!" pc={st.parkedCancels}"}"
   | .badOp why => s!"bad-op {why}"
 
 structure SeqState where
